@@ -22,7 +22,14 @@ static void runCase(Ctx& c, long idx)
         if (j < c13::detCount())
             c13::det(c, j);
         else
+        {
             c13::random(c, j);
+            if (c.prop == "C12")
+            {
+                Rng r = c.caseRng(idx ^ 0x5A5A);
+                fld::packetRawHeaders(c, r, 6);
+            }
+        }
         c.count("variable_part_layout_cases");
     }
     else if (c.prop == "C11" || c.prop == "C12") fld::run(c, idx);
